@@ -18,7 +18,10 @@ import (
 	"pgregory.net/rapid"
 )
 
-// a source value: 0 = not given, 1..4 = one of four distinguishable values
+// a source value: 0 = not given, 1..4 = one of four distinguishable values,
+// 5 (flag/env only) = the documented default value given explicitly and
+// literally ("food.yaml", "log.yaml", "2006/01/02", 10): it must still beat
+// the configuration file.
 type c16Src struct {
 	Flag int `json:"flag,omitempty"`
 	Env  int `json:"env,omitempty"`
@@ -30,15 +33,16 @@ type c16Case struct {
 	Log        c16Src `json:"log"`
 	Fmt        c16Src `json:"fmt"`
 	Depth      c16Src `json:"depth"`
-	Today      c16Src `json:"today"`   // Env unused: the setting has no environment variable
-	Channel    string `json:"channel"` // how the configuration file is named: "none" | "flag" | "env" | "default"
+	Today      c16Src `json:"today"`      // Env unused: the setting has no environment variable
+	Channel    string `json:"channel"`    // how the configuration file is named: "none" | "flag" | "env" | "default"
 	CfgMissing bool   `json:"cfgmissing"` // the explicitly named file does not exist
 	NoDatabase bool   `json:"nodatabase"`
 	DecoyFood  bool   `json:"decoyfood"` // a food.yaml exists in the working directory
 	EqualsForm bool   `json:"equalsform"`
+	CfgSymlink bool   `json:"cfgsymlink"` // the configuration file is a symbolic link to the real file
 }
 
-var c16Formats = []string{"2006/01/02", "2006-01-02", "02.01.2006", "20060102", "02/01/2006"} // index 0 = default
+var c16Formats = []string{"2006/01/02", "2006-01-02", "02.01.2006", "20060102", "02/01/2006", "2006/01/02"} // index 0 = default, 5 = default given explicitly
 
 func c16Pick(s c16Src, hasCfg bool, def int) (val int, level string) {
 	switch {
@@ -69,9 +73,18 @@ func checkC16(c c16Case, ctx *vCtx) *vFailure {
 	hasCfg := c.Channel != "none" && !c.CfgMissing
 	fmtIdx, fmtLevel := c16Pick(c.Fmt, hasCfg, 0)
 	layout := c16Formats[fmtIdx]
+	depthText := func(v int) string {
+		if v == 5 {
+			return "10"
+		}
+		return fmt.Sprint(v)
+	}
 	bookK, bookLevel := c16Pick(c.Book, hasCfg, 5)
 	logK, logLevel := c16Pick(c.Log, hasCfg, 5)
 	depthIdx, depthLevel := c16Pick(c.Depth, hasCfg, 10)
+	if depthIdx == 5 {
+		depthIdx = 10
+	}
 	todaySrc := c.Today
 	todaySrc.Env = 0
 	todayIdx, todayLevel := c16Pick(todaySrc, hasCfg, 0)
@@ -137,7 +150,16 @@ func checkC16(c c16Case, ctx *vCtx) *vFailure {
 		cfgPath = filepath.Join(home, ".hranoprovod", "config")
 	}
 	if c.Channel != "none" && !c.CfgMissing {
-		write(cfgPath, cfg.String())
+		if c.CfgSymlink {
+			real := filepath.Join(root, "dotfiles-config")
+			write(real, cfg.String())
+			if err := os.Symlink(real, cfgPath); err != nil {
+				vFault("symlink: %v", err)
+			}
+			ctx.Label("config-is-symlink")
+		} else {
+			write(cfgPath, cfg.String())
+		}
 	}
 	var global []string
 	env := map[string]string{}
@@ -154,17 +176,23 @@ func checkC16(c c16Case, ctx *vCtx) *vFailure {
 	case "env":
 		env["HR_CONFIG"] = cfgPath
 	}
+	given := func(k int, def string, path func(int) string) string {
+		if k == 5 {
+			return def // the default name, literally, relative to the working directory
+		}
+		return path(k)
+	}
 	if c.Book.Flag != 0 {
-		flag("database", bookPath(c.Book.Flag))
+		flag("database", given(c.Book.Flag, "food.yaml", bookPath))
 	}
 	if c.Book.Env != 0 {
-		env["HR_DATABASE"] = bookPath(c.Book.Env)
+		env["HR_DATABASE"] = given(c.Book.Env, "food.yaml", bookPath)
 	}
 	if c.Log.Flag != 0 {
-		flag("logfile", logPath(c.Log.Flag))
+		flag("logfile", given(c.Log.Flag, "log.yaml", logPath))
 	}
 	if c.Log.Env != 0 {
-		env["HR_LOGFILE"] = logPath(c.Log.Env)
+		env["HR_LOGFILE"] = given(c.Log.Env, "log.yaml", logPath)
 	}
 	if c.Fmt.Flag != 0 {
 		flag("date-format", c16Formats[c.Fmt.Flag])
@@ -173,10 +201,10 @@ func checkC16(c c16Case, ctx *vCtx) *vFailure {
 		env["HR_DATE_FORMAT"] = c16Formats[c.Fmt.Env]
 	}
 	if c.Depth.Flag != 0 {
-		flag("maxdepth", fmt.Sprint(c.Depth.Flag))
+		flag("maxdepth", depthText(c.Depth.Flag))
 	}
 	if c.Depth.Env != 0 {
-		env["HR_MAXDEPTH"] = fmt.Sprint(c.Depth.Env)
+		env["HR_MAXDEPTH"] = depthText(c.Depth.Env)
 	}
 	if c.Today.Flag != 0 {
 		flag("today", vFmtDay(40+c.Today.Flag, layout))
@@ -367,11 +395,15 @@ func c16Sig(c c16Case) string {
 
 func genC16Src(t *rapid.T, label string, hasEnv bool) c16Src {
 	var s c16Src
+	top := 5 // 5 = the default value given explicitly
+	if !hasEnv {
+		top = 4 // the current date has no literal default
+	}
 	if rapid.Bool().Draw(t, label+".flag") {
-		s.Flag = rapid.IntRange(1, 4).Draw(t, label+".flagv")
+		s.Flag = rapid.IntRange(1, top).Draw(t, label+".flagv")
 	}
 	if hasEnv && rapid.Bool().Draw(t, label+".env") {
-		s.Env = rapid.IntRange(1, 4).Draw(t, label+".envv")
+		s.Env = rapid.IntRange(1, top).Draw(t, label+".envv")
 	}
 	if rapid.Bool().Draw(t, label+".cfg") {
 		s.Cfg = rapid.IntRange(1, 4).Draw(t, label+".cfgv")
@@ -387,6 +419,7 @@ func genC16(t *rapid.T) c16Case {
 		NoDatabase: rapid.IntRange(0, 5).Draw(t, "nodb") == 0,
 		DecoyFood:  rapid.Bool().Draw(t, "decoy"),
 		EqualsForm: rapid.Bool().Draw(t, "equals"),
+		CfgSymlink: rapid.IntRange(0, 3).Draw(t, "symlink") == 0,
 	}
 	if c.Channel != "none" && c.Channel != "default" {
 		c.CfgMissing = rapid.IntRange(0, 9).Draw(t, "missing") == 0
@@ -437,6 +470,28 @@ func c16EnumSpace() []c16Case {
 			}
 		}
 	}
+	// the default value given explicitly by flag or env against a configuration entry; symlinked configuration file
+	for si := 0; si < 4; si++ {
+		for _, src := range []c16Src{{Flag: 5, Cfg: 3}, {Env: 5, Cfg: 3}, {Flag: 5, Env: 2, Cfg: 3}} {
+			for _, ch := range channels {
+				c := c16Case{Channel: ch, DecoyFood: true}
+				switch si {
+				case 0:
+					c.Book = src
+				case 1:
+					c.Log = src
+				case 2:
+					c.Fmt = src
+				case 3:
+					c.Depth = src
+				}
+				out = append(out, c)
+			}
+		}
+	}
+	for _, ch := range channels {
+		out = append(out, c16Case{Channel: ch, DecoyFood: true, CfgSymlink: true, Book: c16Src{Cfg: 3}, Fmt: c16Src{Cfg: 2}})
+	}
 	// explicit config: existing vs missing, --no-database in every environment
 	for _, ch := range []string{"flag", "env"} {
 		out = append(out, c16Case{Channel: ch, CfgMissing: true, DecoyFood: true})
@@ -462,12 +517,12 @@ func init() {
 func TestVerifC16Enum(t *testing.T) {
 	space := c16EnumSpace()
 	vEnum(t, "C16", "c16.enum",
-		"for each of the five settings (recipe-book path, log path, date format, resolve depth, current date) the full product {flag set/unset} x {env set/unset} x {config entry set / config file without the entry / no config file} x configuration channel {--config, HR_CONFIG, default location $HOME/.hranoprovod/config through the real binary under an unused uid}, with distinguishable values at every level; plus explicit config existing/missing and --no-database with every other source of the book path, with and without a food.yaml in the working directory",
+		"for each of the five settings (recipe-book path, log path, date format, resolve depth, current date) the full product {flag set/unset} x {env set/unset} x {config entry set / config file without the entry / no config file} x configuration channel {--config, HR_CONFIG, default location $HOME/.hranoprovod/config through the real binary under an unused uid}, with distinguishable values at every level; plus the documented default value given explicitly by flag/env against a configuration entry, a symlinked configuration file, explicit config existing/missing and --no-database with every other source of the book path, with and without a food.yaml in the working directory",
 		fmt.Sprintf("%d combinations", len(space)), len(space), func(i int) c16Case { return space[i] }, checkC16)
 }
 
 func TestVerifC16Random(t *testing.T) {
 	vRapid(t, "C16", "c16.random",
-		"random draws from the full product of sources for all five settings at once (each source absent or one of four distinguishable values), configuration channel none/--config/HR_CONFIG/default location, explicit config missing, --no-database, --flag value and --flag=value forms; oracle: effective value = flag, else env, else config entry, else default, observed through csv database (which book), report quantity (which log, parses in which format), print (date format), csv database-resolved (depth error iff N <= 2), stats and -b today (current date); non-trivial = some setting has >=2 sources with different values, or a missing explicit config, or --no-database",
+		"random draws from the full product of sources for all five settings at once (each source absent, one of four distinguishable values, or for flag/env the documented default given literally), configuration channel none/--config/HR_CONFIG/default location, explicit config missing, --no-database, --flag value and --flag=value forms; oracle: effective value = flag, else env, else config entry, else default, observed through csv database (which book), report quantity (which log, parses in which format), print (date format), csv database-resolved (depth error iff N <= 2), stats and -b today (current date); non-trivial = some setting has >=2 sources with different values, or a missing explicit config, or --no-database",
 		vBudget(1600, 32000), genC16, checkC16)
 }
